@@ -8,8 +8,10 @@
          from the implementation's kind although the description is well-formed (the property fails on this input);
      4 = the description is not well-formed (the theorem's hypothesis fails: serialiser problem);
      8 = proved specification not inside the model's kind although well-formed (would contradict Props/C10_classes.v).
-   [known_missing] lists the features of the FULL statement (the _goal definitions) that the implementation's kind lacks:
-   the recorded findings (positions the class's kind never reads); they are counted, not reported. *)
+   [known_missing] lists the features of the FULL statement (the _goal definitions) that the implementation's kind lacks
+   (only the multi-agent class still has a full statement larger than the proved one): the harness reports such a case
+   as a failing input of the property, tagged kind-misses-common-feature (open finding
+   C10-ma-kind-misses-common-features) when every missed feature is one of the recorded [ma_missed] ([n_outside] = 0). *)
 From Coq Require Import List ZArith NArith Bool.
 Import ListNotations.
 Require Import UPV.Core.Expr UPV.Model.Kind UPV.Gen.Gen_Kind UPV.Model.KindOf UPV.Model.KindOfClasses.
@@ -20,13 +22,13 @@ Record ccase := { k_desc : cdesc; k_kind : list feature }.
 Definition model_kind (d : cdesc) : list feature :=
   match d with DC c => kind_contingent c | DM m => kind_ma m | DH h => kind_hier h | DS s => kind_sched s end.
 Definition proved_spec (d : cdesc) : list feature :=
-  match d with DC c => spec_contingent c | DM m => spec_ma m | DH h => spec_hier h | DS s => spec_sched s end.
+  match d with DC c => spec_contingent c | DM m => spec_ma m | DH h => spec_hier_full h | DS s => spec_sched_full s end.
 Definition full_spec (d : cdesc) : list feature :=
   match d with
   | DC c => spec_contingent c
   | DM m => spec_ma_full m
-  | DH h => spec_hier h ++ spec_hier_params h
-  | DS s => spec_sched s ++ spec_sched_vars s
+  | DH h => spec_hier_full h
+  | DS s => spec_sched_full s
   end.
 Definition wf_okb (d : cdesc) : bool :=
   match d with
@@ -51,3 +53,8 @@ Definition ccode (c : ccase) : N :=
 
 (* number of known-missing features (findings) of a case, for the evidence *)
 Definition n_known (c : ccase) : N := N.of_nat (length (known_missing c)).
+(* ... and how many of them are NOT among the recorded [ma_missed] *)
+Definition n_outside (c : ccase) : N :=
+  N.of_nat (length (filter (fun f => negb (memN f ma_missed)) (known_missing c))).
+(* one number per case for the harness: ccode (< 16), n_known (< 256), n_outside *)
+Definition packed (c : ccase) : N := (ccode c + 16 * n_known c + 4096 * n_outside c)%N.
